@@ -58,7 +58,9 @@ Populate(impl) == <<
     Op("SetID", 1, "", "", V(0), "i1", NoDef, FALSE) >>
 \* a soft resource whose type has no field at all, and its copy
 Fieldless == << NewOf("soft", "rt0", <<>>), Op("Copy", 1, "", "", V(0), "", NoDef, FALSE) >>
-Seeds == { <<>>, Populate("soft"), Populate("wrap"), Fieldless,
+\* a soft resource that was given no type at all (the zero value of the Go type), and a new one made by it
+Typeless == << NewOf("soft", "", <<>>), Op("NewLike", 1, "", "", V(0), "", NoDef, FALSE) >>
+Seeds == { <<>>, Populate("soft"), Populate("wrap"), Fieldless, Typeless,
            Populate("soft") \o <<Op("Copy", 1, "", "", V(0), "", NoDef, FALSE)>>,
            Populate("wrap") \o <<Op("Copy", 1, "", "", V(0), "", NoDef, FALSE)>> }
 
@@ -110,6 +112,8 @@ Variants(e) ==
   \* the same attribute name with another kind: a zero of another width prints the same
   \cup { Rekind([e EXCEPT !.vals["n"] = V(0)], "n", k, nl) : k \in {"int", "int64", "uint8"}, nl \in BOOLEAN }
   \cup { Rekind(e, "s", "int", FALSE) }
+  \* the same name as an attribute on one side and as a (to-one, empty) relationship on the other: as many fields in all
+  \cup { [e EXCEPT !.fields["s"] = R(TRUE, "tt"), !.vals["s"] = Ids(<<>>)] }
   \* the same relationship name with the other cardinality, empty or holding one id
   \cup { Recard(e, "o", FALSE, ids) : ids \in {<<>>, <<"a">>} } \cup { Recard(e, "m", TRUE, ids) : ids \in {<<>>, <<"a">>} }
 EqPairs == { <<a, b>> \in (Variants(E1) \cup Variants(E0)) \X (Variants(E1) \cup Variants(E0)) : TRUE }
